@@ -1,7 +1,8 @@
 ENTRY = {
     "level": "proof",
     "families": [fam("C30", 300, 12000)],
-    "gen_items": [],
+    "gen_items": ["DataType", "exec_coerce", "plan_coerce"],
+    "extra_props": ["IQE.Props.C30Gen"],
     "rule": "sqlgen statements (strata filter, case, join, agg, distinct, setop, cte, values, subquery, sort_limit rotating; generated catalogs of 1-4 tables, "
             "NULL densities 0/10/50/100 %, single-batch and multi-batch registration alternating); every 5th statement gets LIMIT 0 on top so that empty results "
             "(zero batches) are judged too; every 4th case is a RAW statement (family C29's tame generator over its fixed tables: functions, windows, ROLLUP, SELECT *, scalar subqueries - no plan JSON, judged by O only, run in a supervised child process); per statement: QueryResult.schema, ctx.physical_plan(sql).schema(), the schema of every returned batch and the data types of the "
@@ -21,7 +22,7 @@ ENTRY = {
     "explanation": "O = the four views of the schema agree (count, names, Arrow types) for every executed statement; K = reported logical types equal Spec.schemaOf(plan) and reported names equal the written aliases.",
     "manifest": {
         "category": "proof",
-        "text": "Lean: type soundness of the reference plan semantics w.r.t. the static schema Spec.schemaOf (every returned row has the schema's width and each value is NULL or of the column's type; a typed plan never ends in a static error), "
+        "text": "TRANSLATED TIE (IQE/Props/C30Gen.lean): the planner's and the executor's numeric type-coercion tables (both `coerce_numeric_types`) are regenerated from the Rust source on every run (IQE.Gen.Coerce) and proved to agree on every pair of the six signed-integer/float types (C30Gen_plan_exec_agree — the C30-F2 class of defect), the executor's table being total on them. Lean: type soundness of the reference plan semantics w.r.t. the static schema Spec.schemaOf (every returned row has the schema's width and each value is NULL or of the column's type; a typed plan never ends in a static error), "
                 "by mutual structural induction over plans on top of expression-level progress/preservation — for scan, CTE, VALUES, filter, project, all join types, GROUP BY aggregates, DISTINCT, ORDER BY, LIMIT/OFFSET, set operations and WITH "
                 "(theorem C30_schema_sound_partial; GROUPING SETS and window nodes not covered); the modelled part of the binder's naming rule (C30_names). "
                 "Tie: per generated statement the engine's QueryResult.schema, physical-plan schema, batch schemas and array types are compared with each other and with schemaOf / the written aliases, empty results included.",
